@@ -322,23 +322,17 @@ func c09Faults() []c09Fault {
 			q.Files[0].Extra += "\nfunc localOnly() { type OnlyLocal interface{ M() }; var _ OnlyLocal }\n"
 			b.proj.Config.Sub("packages").Sub(b.tpath()).Sub("interfaces").Set("OnlyLocal", world.NewY())
 		}},
-		// "generated and written": the write itself fails
-		{Class: "write-failure", Variant: "no-space-left-on-device", Levels: []string{""}, Apply: func(b *c09Base, _ string, _ *simrt.Plan) {
+		// "generated and written": the write itself fails (same class as the two older unwritable-path variants below, so they are never paired)
+		{Class: "unwritable", Variant: "no-space-left-on-device", Levels: []string{""}, Apply: func(b *c09Base, _ string, _ *simrt.Plan) {
 			// the output path exists (overwriting is allowed) and its device is full: open
 			// succeeds, every write returns ENOSPC
 			b.proj.Links[c09OutFile(b.tpkg().Dir)] = "/dev/full"
 		}},
-		{Class: "write-failure", Variant: "output-path-is-a-directory", Levels: []string{""}, Apply: func(b *c09Base, _ string, _ *simrt.Plan) {
-			b.proj.Aux[c09OutFile(b.tpkg().Dir)+"/keep.txt"] = "a directory occupies the output path\n"
-		}},
-		{Class: "write-failure", Variant: "ancestor-of-output-dir-is-a-file", Levels: []string{""}, Apply: func(b *c09Base, _ string, _ *simrt.Plan) {
-			b.proj.Aux["mocks/example.com"] = "a file where a directory is needed\n"
-		}},
-		{Class: "write-failure", Variant: "file-name-longer-than-the-file-system-allows", Levels: []string{""}, Apply: func(b *c09Base, _ string, _ *simrt.Plan) {
+		{Class: "unwritable", Variant: "file-name-longer-than-the-file-system-allows", Levels: []string{""}, Apply: func(b *c09Base, _ string, _ *simrt.Plan) {
 			// 256 bytes: one more than NAME_MAX; the mock can only be written under another name
 			b.level("interface").Set("filename", strings.Repeat("n", 253)+".go")
 		}},
-		{Class: "write-failure", Variant: "existing-file-and-no-force-file-write", Levels: []string{""}, Apply: func(b *c09Base, _ string, _ *simrt.Plan) {
+		{Class: "unwritable", Variant: "existing-file-and-no-force-file-write", Levels: []string{""}, Apply: func(b *c09Base, _ string, _ *simrt.Plan) {
 			b.proj.Config.Set("force-file-write", false)
 			b.proj.Aux[c09OutFile(b.tpkg().Dir)] = "package mocks\n\n// written by somebody else\n"
 		}},
